@@ -143,6 +143,18 @@ def run(prog, rep, tier, repo):
         inits = [s for s in ts if tag(s.value) == 'const' and s.value[2] == 0]
         upd = [s for s in st if canon(f, s.target, fn, me, alias) == 'params[p]']
         ok = len(incs) == 1 and len(inits) == 1 and len(ts) == 2 and upd and f.cfg.dominates(incs[0].bb, upd[0].bb) and _in_outer_loop_only(f, incs[0].bb, upd[0].bb)
+        if not ok and len(incs) == 1 and len(inits) == 1 and len(ts) == 2 and not upd:
+            # the per-coordinate update lives elsewhere (a helper taking t): judge the counter by where it is read -- every read other
+            # than the increment and the loop test comes after the single increment of the iteration, inside an inner loop or after it
+            tl = ts[0].target
+            reads = [c_.bb for c_ in f.calls() if any(tl in list(subterms(a_)) for a_ in c_.args) and not (c_.path or '').startswith('std::fmt')
+                     and 'Argument' not in (c_.path or '')]
+            reads += [s_.bb for s_ in f.stores() if s_ not in ts and tl in list(subterms(s_.value))]
+            if reads and all(f.cfg.dominates(incs[0].bb, b_) for b_ in reads):
+                loops_ = f.cfg.loops()
+                with_inc = [bl for bl in loops_.values() if incs[0].bb in bl]
+                if len(with_inc) == 1:
+                    ok = True
         # the exponent of the bias corrections, whatever it is called: powi(beta, t as i32)
         exps = set()
         for s_ in f.stores():
@@ -268,6 +280,7 @@ def run(prog, rep, tier, repo):
         cps = [c for c in f.calls() if c.path and short(c.path) == 'copy_from_slice']
         writes = [s for s in f.stores() if tag(s.target) == 'local' and s.target[2] == 'params']
         problems = []
+        undec_acc = []
         rho = None
         if len(cps) != 1:
             problems.append('expected exactly one overwrite of the parameters by the proposal')
@@ -282,12 +295,31 @@ def run(prog, rep, tier, repo):
                 okr = tag(rho) == 'bin' and rho[1] == 'Div' and tag(rho[2]) == 'bin' and rho[2][1] == 'Sub'
                 if okr:
                     a, b = rho[2][2], rho[2][3]
-                    oka = tag(a) == 'call' and short(a[1]) == 'dot' and a[2][0] == a[2][1] and tag(a[2][0]) == 'local' and a[2][0][2] == 'res'
-                    okb = tag(b) == 'call' and short(b[1]) == 'dot' and b[2][0] == b[2][1] and b[2][0] != a[2][0]
+
+                    def is_sq_norm_of_res(t):
+                        return tag(t) == 'call' and short(t[1]) == 'dot' and t[2][0] == t[2][1] and tag(t[2][0]) == 'local' and t[2][0][2] == 'res'
+                    oka = is_sq_norm_of_res(a)
+                    cached = False
+                    if not oka and tag(a) == 'local':
+                        # |r|^2 carried in a local: initialised as dot(res, res) and replaced, together with res, by the proposal's value
+                        defs = [s_ for s_ in f.stores() if s_.target == a]
+                        res_defs = {s_.bb: s_.value for s_ in f.stores() if tag(s_.target) == 'local' and s_.target[2] == 'res'}
+
+                        def def_ok(s_):
+                            v = s_.value
+                            if is_sq_norm_of_res(v):
+                                return True
+                            nr_ = res_defs.get(s_.bb)
+                            return nr_ is not None and tag(v) == 'call' and short(v[1]) == 'dot' and v[2][0] == v[2][1] and v[2][0] == nr_
+                        if defs and all(def_ok(s_) for s_ in defs):
+                            oka = cached = True
+                    okb = tag(b) == 'call' and short(b[1]) == 'dot' and b[2][0] == b[2][1] and (cached or b[2][0] != a[2][0])
                     # the proposal's residuals are computed at the proposed parameters (the copied value)
                     prop = cps[0].args[1]
                     okc = any(z == prop for z in subterms(b))
-                    if not (oka and okb and okc):
+                    if tag(a) == 'local' and not oka:
+                        undec_acc.append('the current sum of squares is carried in `%s`, whose definitions are not read' % show(a))
+                    elif not (oka and okb and okc):
                         problems.append('rho\'s numerator is not |r|^2 - |r_new|^2 with r_new evaluated at the proposal')
                 else:
                     problems.append('rho is not a ratio of the actual to the predicted reduction')
@@ -296,8 +328,11 @@ def run(prog, rep, tier, repo):
             v = s.value
             if not (tag(v) == 'call' and short(v[1]) == 'collect'):
                 problems.append('parameters are also overwritten by %s' % show(v)[:60])
-        (rep.viol if problems else rep.ok)('lm', key, '; '.join(problems) if problems else
-                                           'parameters change only under rho > 0, rho = (|r|^2 - |r_new|^2)/(0.5*pred): the residual sum of squares never increases', site_of(f.body))
+        if undec_acc and not problems:
+            rep.undecided('lm', key, '; '.join(undec_acc), site_of(f.body), proof=False)
+        else:
+            (rep.viol if problems else rep.ok)('lm', key, '; '.join(problems) if problems else
+                                               'parameters change only under rho > 0, rho = (|r|^2 - |r_new|^2)/(0.5*pred): the residual sum of squares never increases', site_of(f.body))
         key = 'lm:covariance'
         rets = f.return_values()
         ok = False
